@@ -119,6 +119,16 @@ def r3_conversions(rep, facts):
                 for x in walk(n):
                     if x.get('k') == 'mcall' and x.get('name') == meth:
                         return cond_depth(n, x, 0) == 0
+        # iterator form: <elements>.for_each(Item::make_value) / .for_each(|v| v.make_value())
+        for n in walk(b['body']):
+            if n.get('k') == 'mcall' and n.get('name') == 'for_each' and n.get('args'):
+                a = peel(n['args'][0])
+                if a.get('k') == 'path' and last_seg(a.get('path') or '') == meth:
+                    return True
+                if a.get('k') == 'closure':
+                    for x in walk(a['body']):
+                        if x.get('k') == 'mcall' and x.get('name') == meth:
+                            return cond_depth(a['body'], x, 0) == 0
         return False
     for d, field, ctor, each in (('toml_edit::table::Table::into_inline_table', 'items', 'with_pairs', 'make_value'),
                                  ('toml_edit::inline_table::InlineTable::into_table', 'items', 'with_pairs', None),
